@@ -46,7 +46,7 @@ func init() {
 				// dirty restarts between transactions.
 				pol = nil
 			}
-			res := crashExec(seed, p, pol, judgeMode{Recovery: false}, run.Options{Deferred: true})
+			res := crashExec(seed, p, pol, judgeMode{Recovery: false, ContinueP: 0.3}, run.Options{Deferred: true})
 			res.Nontrivial = res.Images >= 3 || (p.Cfg.IdxMode == 2 && len(res.StateHash) >= 3)
 			return res
 		}
@@ -61,7 +61,7 @@ func init() {
 			if p.Cfg.IdxMode == 2 && !hasSnapFaults(p) {
 				pol = nil
 			}
-			return crashExec(seed, p, pol, judgeMode{Recovery: false}, run.Options{Deferred: true})
+			return crashExec(seed, p, pol, judgeMode{Recovery: false, ContinueP: 0.3}, run.Options{Deferred: true})
 		},
 		Classes: classes("open-failed", "open-panic"),
 		Assume:  []string{"power loss is C11's business and injected I/O errors C12's; here every completed write survives"},
